@@ -175,8 +175,12 @@ void JunctionRef::moveAttachedConns(const Point& newPosition)
     {
         ConnEnd *connEnd = *curr;
         COLA_ASSERT(connEnd->m_conn_ref != nullptr);
+        // This update follows from the junction moving: like for shapes,
+        // it must not overwrite an endpoint change the user has queued for
+        // the same connector end in this transaction.
+        bool connPinUpdate = true;
         m_router->modifyConnector(connEnd->m_conn_ref, connEnd->endpointType(),
-                *connEnd);
+                *connEnd, connPinUpdate);
     }
     for (ShapeConnectionPinSet::iterator curr = 
             m_connection_pins.begin(); curr != m_connection_pins.end(); ++curr)
